@@ -402,6 +402,19 @@ impl Profile {
         p
     }
 
+    /// a clock that crosses a boundary of an integer type within the history (2^32, 2^53, 2^63) or
+    /// reaches the largest representable time
+    pub fn clock_boundary(name: &str, start_time: u64) -> Profile {
+        let mut p = Profile::core(name, 1, 10);
+        p.start_time = start_time;
+        p.prices = vec![10, 11];
+        p.dt = DtMode::ZeroOneDisciplined;
+        p.modify = true;
+        p.modify_prices = true;
+        p.modify_vols = vec![1];
+        p
+    }
+
     /// large numbers: times beyond 2^32, prices around 2^31, volumes beyond 2^16 and 2^31
     pub fn magnitude(name: &str) -> Profile {
         let mut p = Profile::core(name, 1, 10);
@@ -529,6 +542,12 @@ impl Profile {
     /// Steps (clock choice x operation) enabled in this state.
     pub fn steps(&self, m: &RefModel) -> Vec<Step> {
         let mut ops = self.ops(m);
+        // (the clock is a u64: near its end an operation that would need a later time is not offered)
+        ops.retain(|op| match op {
+            Op::SetTime { dt } => m.t.checked_add(*dt + 1).is_some(),
+            _ => true,
+        });
+        let can_advance = m.t.checked_add(1).is_some();
         if self.magnitude {
             ops.retain(|op| Self::valid_magnitude(m, &Step { dt: 1, op: op.clone() }));
         }
@@ -536,18 +555,24 @@ impl Profile {
         match self.dt {
             DtMode::One => {
                 for op in ops {
-                    out.push(Step { dt: 1, op });
+                    if can_advance {
+                        out.push(Step { dt: 1, op });
+                    }
                 }
             }
             DtMode::ZeroOneFree => {
                 for op in ops {
-                    out.push(Step { dt: 1, op: op.clone() });
+                    if can_advance {
+                        out.push(Step { dt: 1, op: op.clone() });
+                    }
                     out.push(Step { dt: 0, op });
                 }
             }
             DtMode::ZeroOneDisciplined => {
                 for op in ops {
-                    out.push(Step { dt: 1, op: op.clone() });
+                    if can_advance {
+                        out.push(Step { dt: 1, op: op.clone() });
+                    }
                     let s0 = Step { dt: 0, op };
                     let mut m2 = m.clone();
                     apply_model(&mut m2, &s0);
